@@ -120,7 +120,7 @@ reclaim('C06', None, 'Known-finding key requires the exact known outcome; Pearso
 SRC_NOTE = ('Source-derived obligations (Properties/%sSrc.v): the formulas/constants of the hand-written model are re-derived from the SOURCE TEXT on every run by a fail-closed ast translator (%s -> Gen/%s) '
             'and proved equal to the model; a changed formula breaks a proof obligation. If the translator cannot read a rewritten function these obligations are reported as not attempted '
             '(WARNING + note in the evidence) and the correspondence of that run is deepened; trusted: the translator\'s table of opaque parameters.')
-reclaim('C02', 'Source tie: invariants_match_source (order and composition of the Daylight and RDKit atom invariants), unsigned_matches_source, hash_input_matches_source, sort_keys_match_source, level_cap_matches_source.',
+reclaim('C02', 'Source tie (3 theorems, real translations): invariants_match_source (order and composition of the Daylight and RDKit atom invariants), unsigned_matches_source (the returned integer expression, on the int32 range), level_cap_matches_source (the boolean stop test); hash-input layout, sort keys, atom-tuple layout and radius are string GUARDS of the translator only (no theorem).',
         SRC_NOTE % ('C02', 'harness/facts_m1src.py', 'M1Source.v'))
 reclaim('C06', 'Source tie (14 theorems, axiom-free): fp_tanimoto/dice/cosine/pearson/soergel/mean/std_match(es)_source, arr_ and sp_tanimoto_dice_match_source, sp_cosine_matches_source, and the step/merge/tail/finish '
         'equations of the dense and sparse Soergel kernels; stated with == and proved by ring/field so that algebraically equivalent rewrites of the Python expression still pass.',
